@@ -3,6 +3,7 @@ use crate::common::*;
 use std::io::Write;
 
 mod c01;
+mod c02;
 pub mod c03;
 pub mod c07;
 pub mod c04;
@@ -17,6 +18,7 @@ pub fn generate(suite: &str, tier: &str, seed: u64) -> Vec<String> {
     let thorough = tier == "thorough";
     match suite {
         "c01" => c01::generate(&mut rng, thorough),
+        "c02" => c02::generate(&mut rng, thorough),
         "c03" => c03::generate(&mut rng, thorough),
         "c07" => c07::generate(&mut rng, thorough),
         "c08" => c08::generate(&mut rng, thorough),
@@ -29,6 +31,11 @@ pub fn generate(suite: &str, tier: &str, seed: u64) -> Vec<String> {
         "c10" => c10::generate(&mut rng, thorough),
         _ => panic!("unknown suite {suite}"),
     }
+}
+
+/// Suites whose lines are evaluated under the per-line watchdog (see guard.rs).
+pub fn guarded(suite: &str) -> bool {
+    matches!(suite, "c03")
 }
 
 pub fn eval_more(t: &[&str]) -> String {
